@@ -131,12 +131,6 @@ def chainDefined (comb : List (Int × List Int)) : List Int := [0, 1, -1] ++ com
 def readsDefined (comb : List (Int × List Int)) (rows : List (Int × Int)) : Bool :=
   rows.all (fun r => r.1 == 0 || (chainDefined comb).contains r.2)
 
-/-- same, with the chain looked up by name in the generated list of chains -/
-def readsDefinedIn (chains : List (String × List (Int × List Int))) (rd : String × List (Int × Int)) : Bool :=
-  match chains.lookup rd.1 with
-  | some comb => readsDefined comb rd.2
-  | none => false
-
 /-! ### line-protocol helpers for the drivers (doubles travel as 16 hex digits) -/
 
 def hexVal (c : Char) : Nat :=
